@@ -177,22 +177,45 @@ def _case(draw):
             attach(h)
         elif o == "cluster":
             # a probe cluster in the registry (same home slot, preferably the last slot so that it wraps around)
-            # made of reachable and unreachable objects, then collections: survivors must survive the sweep's
-            # backward shifts
+            # made of reachable and unreachable objects and a root holder, then an explicit deletion inside the
+            # cluster and collections: survivors must survive the backward shifts of del and of the sweep
             res = draw(st.sampled_from([-2, -2, 0, 2]))
             cnt = draw(st.integers(3, 10))
             keepers = [x for x in reachable() if S.kind[x] in ("arr", "lst")]
+            first_stk = None
+            with_root = draw(st.booleans())
             for j in range(cnt):
                 h = fresh()
+                if with_root and j == cnt - 1:
+                    # a root-registered holder late in the cluster (so it sits displaced), the only path to a child
+                    S.new(h, "nodea", "root")
+                    ops.append(["new", h, "nodea", "root", res])
+                    c = fresh()
+                    S.new(c, "node", "m")
+                    ops.append(["new", c, "node", "m"])
+                    S.fields[h][0] = c
+                    ops.append(["store", h, 0, c])
+                    continue
                 S.new(h, "nodea", "m")
                 ops.append(["new", h, "nodea", "m", res])
-                if draw(st.booleans()):
+                if j == (cnt - 2 if with_root else 0) and len(S.stk) < 14:       # the member allocated right before the root holder
+                    slot = min(set(range(16)) - set(S.stk))
+                    S.stk[slot] = h
+                    ops.append(["stk", slot, h])
+                    first_stk = (slot, h)
+                elif draw(st.booleans()):
                     if keepers:
                         store(keepers[0], h)
                     elif len(S.stk) < 14:
                         slot = min(set(range(16)) - set(S.stk))
                         S.stk[slot] = h
                         ops.append(["stk", slot, h])
+            if first_stk and draw(st.booleans()) and S.indeg(first_stk[1]) == 0:
+                slot, h = first_stk
+                del S.stk[slot]
+                S.dead.add(h)
+                ops.append(["unstk", slot])
+                ops.append(["del", h])
             ops.append(["collect"])
             ops.append(["check"])
             ops.append(["collect"])
